@@ -160,8 +160,37 @@ def install():
         _install_balance_monitor(query_env)
     except Exception as exc:  # noqa: BLE001
         MON.install_problems.append(f'balance monitor: {exc!r}')
+    try:
+        _install_compile_points()
+    except Exception as exc:  # noqa: BLE001
+        MON.install_problems.append(f'compile points: {exc!r}')
     _installed = True
     return MON
+
+
+def _install_compile_points():
+    """Scheduling points in the parse / compile phase (for C20): entry of parse(), of Compiler.compile(), of every overload
+    look-up and of the clause compilers. They only call the scheduler hook; they observe nothing."""
+    from beanquery import types as bqtypes, compiler, parser
+    mon = MON
+
+    def pointed(fn, label):
+        marker = type(label, (), {})()
+
+        def wrapper(*a, **kw):
+            hook = mon.point_hook
+            if hook is not None:
+                hook(marker)
+            return fn(*a, **kw)
+        wrapper.__name__ = getattr(fn, '__name__', label)
+        wrapper.__doc__ = getattr(fn, '__doc__', None)
+        return wrapper
+    bqtypes.function_lookup = pointed(bqtypes.function_lookup, 'compile:function_lookup')
+    parser.parse = pointed(parser.parse, 'parse')
+    C = compiler.Compiler
+    for name in ('compile', '_compile_from', '_compile_targets', '_compile_group_by', '_compile_order_by', '_compile_pivot_by'):
+        if name in C.__dict__:
+            setattr(C, name, pointed(C.__dict__[name], f'compile:{name}'))
 
 
 # ---------------------------------------------------------------------------
